@@ -15,6 +15,11 @@ LSmall == KSmall \cup {Bits(b) : b \in LExtraBytes} \cup {Bits(<<0>>), Bits(<<0,
 V3 == { [tag |-> 120, len |-> 1], [tag |-> 121, len |-> 2], [tag |-> 122, len |-> 40] }
 V2 == { [tag |-> 120, len |-> 1], [tag |-> 122, len |-> 40] }
 Bounded(n) == Init /\ [][TLCGet("level") < n /\ Next]_vars
+BoundedR(n) == Init /\ [][TLCGet("level") < n /\ (Next \/ NextR)]_vars
+SpecRL3 == BoundedR(3)
+SpecRL4 == BoundedR(4)
+SpecRL5 == BoundedR(5)
+ViewHist == <<root, contents, hist>>
 SpecL4 == Bounded(4)
 SpecL5 == Bounded(5)
 SpecL6 == Bounded(6)
